@@ -39,7 +39,9 @@ type HistCase struct {
 	Kind     string      `json:"kind"`     // "hist"
 	Layering string      `json:"layering"` // disjoint | nested
 	Umask    int         `json:"umask"`
-	Loc      string      `json:"loc,omitempty"` // nested: the backup location
+	Loc      string      `json:"loc,omitempty"`       // nested: the backup location
+	Ctor     string      `json:"ctor,omitempty"`      // nested: "newwithfs" = the BackupFS is built by backupfs.NewWithFS(PrefixFS(case root), LocSpell) itself (no spies: no trace, no faults)
+	LocSpell string      `json:"loc_spell,omitempty"` // the spelling of the location handed to the constructor (default Loc)
 	Tree     []Entry     `json:"tree"`
 	Steps    []Step      `json:"steps"`
 	Faults   []FaultSpec `json:"faults,omitempty"`
@@ -64,8 +66,9 @@ type histEnv struct {
 	seen                map[string]int
 	mu                  sync.Mutex
 	onPrim              func(rec CallRec)
-	fired               bool  // the injected fault has fired (reset by the caller per step)
-	apiActive           int32 // >0 while a BackupFS method call is in progress (conc stream)
+	newBFS              func() *backupfs.BackupFS // how the instance under test is constructed (also after a reload)
+	fired               bool                      // the injected fault has fired (reset by the caller per step)
+	apiActive           int32                     // >0 while a BackupFS method call is in progress (conc stream)
 }
 
 func sigKey(fsTag, method string, args []string) string {
@@ -149,6 +152,15 @@ func newHistEnv(c *HistCase) (*histEnv, error) {
 		e.backupSpy = &SpyFS{Tag: "backup", Inner: bak, Clock: &e.clock}
 		e.baseStack = "hidden=" + c.Loc + "|prefix=" + modelRoot + "/n"
 		e.bakStack = "prefix=" + c.Loc + "|prefix=" + modelRoot + "/n"
+		if c.Ctor == "newwithfs" {
+			spell := c.LocSpell
+			if spell == "" {
+				spell = c.Loc
+			}
+			e.newBFS = func() *backupfs.BackupFS { return backupfs.NewWithFS(p, spell) }
+			e.baseStack = "newwithfs=" + spell + "|prefix=" + modelRoot + "/n"
+			e.bakStack = ""
+		}
 	default:
 		e.baseSub, e.bakSub = "/base", "/bak"
 		if err := rc.Build("/base", c.Tree); err != nil {
@@ -175,7 +187,10 @@ func newHistEnv(c *HistCase) (*histEnv, error) {
 		}
 		e.faults[k][f.Occ] = true
 	}
-	e.bfs = backupfs.NewBackupFS(e.baseSpy, e.backupSpy)
+	if e.newBFS == nil {
+		e.newBFS = func() *backupfs.BackupFS { return backupfs.NewBackupFS(e.baseSpy, e.backupSpy) }
+	}
+	e.bfs = e.newBFS()
 	rc.MarkStart()
 	return e, nil
 }
@@ -763,7 +778,7 @@ func runHistCase(c *HistCase, prop string) (*caseOut, error) {
 				viol("C12", "MarshalJSON failed: "+merr.Error())
 			} else {
 				before := e.mapFields()
-				nb := backupfs.NewBackupFS(e.baseSpy, e.backupSpy)
+				nb := e.newBFS()
 				if uerr := json.Unmarshal(data, nb); uerr != nil {
 					viol("C12", "UnmarshalJSON failed: "+uerr.Error())
 				} else {
@@ -826,7 +841,9 @@ func runHistCase(c *HistCase, prop string) (*caseOut, error) {
 			out.b.Add(tag, line("bfs.op", "force", st.Arg[0]), line(res...))
 			out.count("force." + res[0])
 		}
-		if len(c.Faults) > 0 || fullTrace {
+		if c.Ctor != "" {
+			// built by the constructor: nothing interposed, no trace
+		} else if len(c.Faults) > 0 || fullTrace {
 			evs := e.trace(false)
 			sort.Strings(evs)
 			out.b.Add(tag+" trace", line("bfs.trace", "sorted"), line(evs...))
@@ -978,6 +995,13 @@ func genHistCase(r *RNG, g HistGen, umask int) *HistCase {
 	}
 	if g.Layering == "nested" {
 		c.Loc = r.Pick([]string{"/bak", "/var/opt/backups", "/b/k"})
+		if r.Chance(1, 2) {
+			// through the documented constructor, sometimes with another spelling of the location
+			c.Ctor = "newwithfs"
+			if r.Chance(1, 3) {
+				c.LocSpell = r.Pick([]string{c.Loc + "/", "/." + c.Loc, strings.Replace(c.Loc, "/", "//", 1), c.Loc + "/."})
+			}
+		}
 		// drop generated entries that collide with the location chain as non-directories, or lie below it
 		var keep []Entry
 		dropped := map[string]bool{}
